@@ -69,6 +69,10 @@ def oracle(case):
     kw = {"ignore_data": True} if case.get("ignore_data") else {}
     if kw:
         out.cls("ignore_data")
+    if case.get("empty_comment_marker"):
+        # '#' plus an EMPTY marker: no line starts with "nothing", so this reads like the default ('#',)
+        kw["ignore_comments"] = ("#", "")
+        out.cls("ignore_comments-with-empty-marker")
     if case.get("reuse"):
         # the same LASFile object has read another file before (comma-delimited, wrapped, version 1.2, other NULL):
         # what steers the parsing of THIS file is this file alone
@@ -77,7 +81,11 @@ def oracle(case):
         from vlib.api import attempt
         prior = ("~Version\nVERS. 1.2 : v\nWRAP. YES : w\nDLM. COMMA : d\n~Well\nSTRT.FT 1 : s\nSTOP.FT 2 : s\nSTEP.FT 1 : s\n"
                  "NULL. 12.1 : n\nCOMP. prior company : c\n~Curves\nDEPT.FT : d\nAAA. : a\n~A\n1\n12.1\n2\n3\n")
-        # (only sections every generated file has: what becomes of sections the new file lacks is not part of the statement)
+        # (only sections every generated file has: what becomes of sections the new file lacks is not part of the statement;
+        # when the new file has an ~Other section of its own, the prior file has one too - its text belongs to that file)
+        if any(s_["kind"] == "O" for s_ in spec["sections"]):
+            prior = prior.replace("~A\n", "~Other\nremark of the prior file\nsecond remark 1 2 3\n~A\n")
+            out.cls("prior-file-had-other-text")
         obj = attempt(lasio.read, prior)
         las = obj if is_raised(obj) else attempt(obj.read, io.StringIO(lastext.render(spec)), mnemonic_case=mc, engine=case.get("engine", "numpy"), **kw)
         if not is_raised(las):
@@ -206,6 +214,8 @@ def specs(draw, lower_titles=True, steering=True):
         case["ignore_data"] = True  # header sections are attributed the same way when the data are not wanted
     elif draw(st.integers(0, 5)) == 0:
         case["reuse"] = True
+    if draw(st.integers(0, 9)) == 0:
+        case["empty_comment_marker"] = True
     return case
 
 
